@@ -26,6 +26,22 @@ Proof. exact method_is_iff_in_chain. Qed.
 Theorem C19_is_never_spurious : forall e s, errors_is e (ESent s) = RTrue -> occurs_sent s e = true.
 Proof. exact is_never_spurious. Qed.
 
+(* identity, not content: a sentinel that does not ITSELF occur in a value is not reported by
+   errors.Is nor by the Is method, whatever look-alikes the value contains (a foreign errors.New with
+   exactly the sentinel's text is another value: [twin_of s]); any value, any depth *)
+Theorem C19_lookalike_not_reported : forall e s, occurs_sent s e = false ->
+  errors_is e (ESent s) <> RTrue /\ (forall r, method_is e (ESent s) = Some r -> r <> RTrue).
+Proof. exact lookalike_sentinel_not_reported. Qed.
+
+(* and a wrapper allocated a second time with identical fields around the same inner values (equal
+   content: [erase] cannot tell them apart) is not found in the chain either *)
+Theorem C19_lookalike_wrapper_not_reported : forall e t k i,
+  lib_chain e = true -> node_id t = Some i -> ids_below k e = true ->
+  erase (retag k t) = erase t /\
+  errors_is e (retag k t) = RFalse /\
+  (forall r, method_is e (retag k t) = Some r -> r = RFalse).
+Proof. exact lookalike_wrapper_not_reported. Qed.
+
 (* the same for every comparable non-nil target, sentinel or not ("all targets"): errors.Is answers
    whether some value of the chain is == to the target *)
 Theorem C19_is_any_target : forall e t, lib_chain e = true -> comparable t = true -> is_nil t = false ->
@@ -131,6 +147,8 @@ Proof. exact eof_loses_handle. Qed.
 Print Assumptions C19_is_iff_in_chain.
 Print Assumptions C19_method_is_iff_in_chain.
 Print Assumptions C19_is_never_spurious.
+Print Assumptions C19_lookalike_not_reported.
+Print Assumptions C19_lookalike_wrapper_not_reported.
 Print Assumptions C19_is_any_target.
 Print Assumptions C19_is_through_err_field.
 Print Assumptions C19_is_ext_chain.
